@@ -165,6 +165,34 @@ class HarnessError(Exception):
     pass
 
 
+class CaseTimeout(Exception):
+    pass
+
+
+class time_limit:
+    """SIGALRM-based wall-clock guard for one case inside a worker (main thread only).  A hit means 'inconclusive'."""
+
+    def __init__(self, seconds):
+        self.seconds = int(max(1, seconds))
+
+    def __enter__(self):
+        import signal
+
+        def handler(signum, frame):
+            raise CaseTimeout()
+
+        self._old = signal.signal(signal.SIGALRM, handler)
+        signal.alarm(self.seconds)
+        return self
+
+    def __exit__(self, et, ev, tb):
+        import signal
+
+        signal.alarm(0)
+        signal.signal(signal.SIGALRM, self._old)
+        return False
+
+
 def load_findings(prop):
     path = os.path.join(ROOT, "known_findings", f"{prop}.json")
     if not os.path.exists(path):
